@@ -1346,10 +1346,13 @@ func (s *SCCP) unusedBindings() []string {
 // table would be vacuous.
 type tableAcc struct {
 	all, used map[string]bool
+	optional  map[string]bool // keys that refine the table when present but are not required to exist
 	n         int
 }
 
-func newTableAcc() *tableAcc { return &tableAcc{all: map[string]bool{}, used: map[string]bool{}} }
+func newTableAcc() *tableAcc {
+	return &tableAcc{all: map[string]bool{}, used: map[string]bool{}, optional: map[string]bool{}}
+}
 
 func (a *tableAcc) run(c *Ctx, r *Report, fn *ssa.Function, sc *Scenario) (*Trace, *SCCP) {
 	s := newSCCP(c, sc)
@@ -1381,7 +1384,7 @@ func (a *tableAcc) absorb(s *SCCP) {
 func (a *tableAcc) report(c *Ctx, r *Report, rule string, fn *ssa.Function) bool {
 	var un []string
 	for k := range a.all {
-		if !a.used[k] {
+		if !a.used[k] && !a.optional[k] {
 			un = append(un, k)
 		}
 	}
